@@ -214,6 +214,8 @@ pub enum CliCase {
     ErrorClass { kind: u8, with_good_doc: bool },
     /// C18: per document outcome class: 0 success 1 validation failure 2 timeout 3 skip 4 parse error 5 execution error (cram `exit 3`) 6 shell not executable
     Env { classes: Vec<u8>, crams: Vec<bool>, same_names: bool, flag: u8, tamper: bool },
+    /// C18: the test cases of prepended and appended documents get the documented environment of the run, too
+    EnvPrepend { cram: bool },
     /// C18 (sampling, labelled): k scrut processes at the same time on one TMPDIR
     Concurrent { k: usize, round: usize },
 }
@@ -268,7 +270,7 @@ impl Engine for VcCli {
         match case {
             CliCase::Skip { .. } => property == "C15",
             CliCase::Order { .. } | CliCase::ErrorClass { .. } => property == "C20",
-            CliCase::Env { .. } | CliCase::Concurrent { .. } => property == "C18",
+            CliCase::Env { .. } | CliCase::Concurrent { .. } | CliCase::EnvPrepend { .. } => property == "C18",
         }
     }
 
@@ -465,6 +467,8 @@ impl Engine for VcCli {
                 v.push(CliCase::Env { classes: vec![class], crams: vec![cram], same_names: false, flag: 3, tamper: false });
             }
         }
+        v.push(CliCase::EnvPrepend { cram: false });
+        v.push(CliCase::EnvPrepend { cram: true });
         for flag in 0..3u8 {
             v.push(CliCase::Env { classes: vec![0], crams: vec![false], same_names: false, flag, tamper: true });
             v.push(CliCase::Env { classes: vec![0, 0], crams: vec![false, true], same_names: false, flag, tamper: true });
@@ -479,7 +483,7 @@ impl Engine for VcCli {
     fn bound(&self, tier: Tier) -> String {
         let q = tier == Tier::Quick;
         format!(
-            "C15: every Markdown document of 1..{d} test cases over {{pass, fail-output, fail-exit, exit 80, exit 80 with [80], exit 81, exit 81 with [81]}} x skip code setting {{default, front-matter defaults 81, inline 81}} x second document {{none, passing, failing}}; every Cram document of 1..{d} over the same plus a final plain `exit 80`. C20: every single Markdown document of 1..{d} test cases over {{pass, fail-output, fail-exit, exit 80, detached, timeout, exit 81}} x 9 prepend/append variants (front-matter, -P/-A, both, failing prepend, a prepended document that skips with a skip code of its own) + inline skip code 81; every run of {n} documents over 7 document shapes (Markdown and Cram mixed) given as files, as a directory, and with -P; 4 error classes. C18: every run of 1..{n} documents over 8 outcome classes (success, validation failure, timeout, skip, parse error, script exit error, shell not executable, timeout of a shell that ignores SIGTERM - observed after that shell has ended) x {{no flag, --work-directory, --keep-temporary-directories}} x format mixes (and --work-directory with a path that does not exist for 4 classes x 2 formats) x same/different file names, plus tampering histories (test 1 overwrites TESTDIR / unsets TMPDIR) and {r} rounds of 4 concurrent scrut processes on one TMPDIR (sampling, not what the property is decided on)",
+            "C15: every Markdown document of 1..{d} test cases over {{pass, fail-output, fail-exit, exit 80, exit 80 with [80], exit 81, exit 81 with [81]}} x skip code setting {{default, front-matter defaults 81, inline 81}} x second document {{none, passing, failing}}; every Cram document of 1..{d} over the same plus a final plain `exit 80`. C20: every single Markdown document of 1..{d} test cases over {{pass, fail-output, fail-exit, exit 80, detached, timeout, exit 81}} x 9 prepend/append variants (front-matter, -P/-A, both, failing prepend, a prepended document that skips with a skip code of its own) + inline skip code 81; every run of {n} documents over 7 document shapes (Markdown and Cram mixed) given as files, as a directory, and with -P; 4 error classes. C18: every run of 1..{n} documents over 8 outcome classes (success, validation failure, timeout, skip, parse error, script exit error, shell not executable, timeout of a shell that ignores SIGTERM - observed after that shell has ended) x {{no flag, --work-directory, --keep-temporary-directories}} x format mixes (and --work-directory with a path that does not exist for 4 classes x 2 formats) x same/different file names, plus a run with prepended and appended documents (their test cases get the environment of the run), tampering histories (test 1 overwrites TESTDIR / unsets TMPDIR) and {r} rounds of 4 concurrent scrut processes on one TMPDIR (sampling, not what the property is decided on)",
             d = if q { 2 } else { 3 },
             n = if q { 2 } else { 3 },
             r = if q { 3 } else { 20 }
@@ -516,6 +520,7 @@ impl Engine for VcCli {
             CliCase::Order { docs, aux, cli_prepend, cli_append, by_directory } => check_order(case, docs, aux, cli_prepend, cli_append, *by_directory),
             CliCase::ErrorClass { kind, with_good_doc } => check_error_class(case, *kind, *with_good_doc),
             CliCase::Env { classes, crams, same_names, flag, tamper } => check_env(case, classes, crams, *same_names, *flag, *tamper),
+            CliCase::EnvPrepend { cram } => check_env_prepend(case, *cram),
             CliCase::Concurrent { k, round } => check_concurrent(case, *k, *round),
         }
     }
@@ -790,6 +795,46 @@ fn check_error_class(case: &CliCase, kind: u8, with_good_doc: bool) -> CaseResul
     res.outcome.push(("C20", hash64(&("error", kind, run.status))));
     if run.status != Some(1) {
         res.findings.push(Finding::new("C20", "exit-status", format!("error class {kind} (0 missing path, 1 invalid UTF-8, 2 unparsable, 3 shell missing), good doc first={with_good_doc}: exit status 1"), format!("{:?}; stdout {:?}", run.status, run.stdout_str().chars().take(200).collect::<String>())));
+    }
+    res
+}
+
+fn check_env_prepend(case: &CliCase, cram: bool) -> CaseResult {
+    let mut res = CaseResult::default();
+    res.nontrivial.push(("C18", hash64(case)));
+    let sb = Sandbox::new();
+    let ext = if cram { "t" } else { "md" };
+    let names = [format!("m/main.{ext}"), format!("p/pre.{ext}"), format!("p/post.{ext}")];
+    for n in &names {
+        let d = Doc::new(n, cram, vec![B::Pass]);
+        let id = d.id();
+        sb.write(n, d.text(&|_| format!("echo DOC={id} >> \"$VERIF_MARK\"; {ENV_PROBE}")).as_bytes());
+    }
+    let args = ["test", "--no-color", "-r", "json", names[0].as_str(), "-P", names[1].as_str(), "-A", names[2].as_str()];
+    let run = run_scrut(&sb, &args, &env_for(&sb), Duration::from_secs(60));
+    let mark = std::fs::read_to_string(sb.scratch.path().join("mark")).unwrap_or_default();
+    let blocks: Vec<BTreeMap<String, String>> = mark
+        .split("END\n")
+        .filter(|b| !b.trim().is_empty())
+        .map(|b| b.lines().filter_map(|l| l.split_once('=').map(|(k, v)| (k.to_string(), v.to_string()))).collect())
+        .collect();
+    res.outcome.push(("C18", hash64(&("prepend-env", cram, blocks.len(), run.status))));
+    let describe = || format!("{} main document with one prepended and one appended document (-P / -A), one test case each", if cram { "cram" } else { "markdown" });
+    if run.status != Some(0) || blocks.len() != 3 {
+        res.findings.push(Finding::new("C18", "documented-environment", format!("{}: three test cases run, exit status 0", describe()), format!("{} test cases recorded, status {:?}; stderr {}", blocks.len(), run.status, run.stderr_str().lines().last().unwrap_or(""))));
+        return res;
+    }
+    let main = blocks.iter().find(|b| b.get("DOC").map(|d| d.contains("main")).unwrap_or(false)).cloned().unwrap_or_default();
+    let caller_tmp = sb.tmpdir.to_string_lossy().to_string();
+    for b in &blocks {
+        for v in ["TESTDIR", "TESTFILE", "TESTSHELL", "TMPDIR", "LANG", "LANGUAGE", "LC_ALL", "TZ", "COLUMNS", "CDPATH", "GREP_OPTIONS"] {
+            let got = b.get(v).cloned().unwrap_or_else(|| "<missing>".into());
+            let want = main.get(v).cloned().unwrap_or_else(|| "<missing>".into());
+            if got != want || got == "<unset>" || (v == "TMPDIR" && got == caller_tmp) {
+                res.findings.push(Finding::new("C18", "documented-environment", format!("{}: test case of {} sees {v}={want} (the value of the run, as the main document's test case does)", describe(), b.get("DOC").cloned().unwrap_or_default()), format!("{v}={got}")));
+                return res;
+            }
+        }
     }
     res
 }
